@@ -147,11 +147,16 @@ func keysUnion(ms ...map[string]int) []string {
 
 // checkStats evaluates the C23 accounting rules for one completed query.
 func checkStats(name string, qr QueryResult, si *storeIndex, q *bs.Query, out *[]Finding) {
-	if qr.Err != nil || qr.QueryErr != nil {
+	if qr.QueryErr != nil {
 		return
 	}
+	// the "at most once", "all or none per file", "source of a returned row is processed" and
+	// "skipped blocks report zero" clauses hold for every terminated query; the equalities
+	// only on clean completion
+	clean := qr.Err == nil
 	st := qr.Stats
 	seen := map[string]bool{}
+	skippedKeys := map[string]bool{}
 	listedPerFile := map[string]int{}
 	var rowsScanned, bytesScanned int64
 	skipped, processed := 0, 0
@@ -169,11 +174,17 @@ func checkStats(name string, qr QueryResult, si *storeIndex, q *bs.Query, out *[
 		}
 		if b.BloomFilterSkipped {
 			skipped++
+			skippedKeys[k] = true
 			if b.RowsProcessed != 0 || b.BytesProcessed != 0 {
 				*out = append(*out, fnd("c23-skipped-nonzero", "C23 %s: skipped block %s reports rows=%d bytes=%d", name, k, b.RowsProcessed, b.BytesProcessed))
 			}
 		} else {
 			processed++
+			if !clean {
+				rowsScanned += b.RowsProcessed
+				bytesScanned += b.BytesProcessed
+				continue
+			}
 			if b.RowsProcessed != int64(len(bv.Canon)) {
 				*out = append(*out, fnd("c23-rows-processed", "C23 %s: processed block %s RowsProcessed=%d but the block holds %d rows", name, k, b.RowsProcessed, len(bv.Canon)))
 			}
@@ -187,11 +198,11 @@ func checkStats(name string, qr QueryResult, si *storeIndex, q *bs.Query, out *[
 		rowsScanned += b.RowsProcessed
 		bytesScanned += b.BytesProcessed
 	}
-	if st.BlocksSkipped != skipped || st.BlocksProcessed != processed || st.RowsScanned != rowsScanned || st.BytesScanned != bytesScanned {
+	if clean && (st.BlocksSkipped != skipped || st.BlocksProcessed != processed || st.RowsScanned != rowsScanned || st.BytesScanned != bytesScanned) {
 		*out = append(*out, fnd("c23-totals", "C23 %s: totals (%d skipped, %d processed, %d rows, %d bytes) differ from per-block sums (%d, %d, %d, %d)",
 			name, st.BlocksSkipped, st.BlocksProcessed, st.RowsScanned, st.BytesScanned, skipped, processed, rowsScanned, bytesScanned))
 	}
-	if st.RowsMatched != int64(len(qr.Rows)) {
+	if clean && st.RowsMatched != int64(len(qr.Rows)) {
 		*out = append(*out, fnd("c23-rows-matched", "C23 %s: RowsMatched=%d but %d rows were returned", name, st.RowsMatched, len(qr.Rows)))
 	}
 	// all-or-none of the prefilter-surviving blocks per file
@@ -212,12 +223,12 @@ func checkStats(name string, qr QueryResult, si *storeIndex, q *bs.Query, out *[
 	for i := range si.blocks {
 		b := &si.blocks[i]
 		k := fmt.Sprintf("%s@%d", b.File, b.Meta.RowDataOffset)
-		if seen[k] {
+		if seen[k] && !skippedKeys[k] {
 			continue
 		}
 		for _, c := range b.Canon {
 			if got[c] > 0 && onlyIn(si, c, b) {
-				*out = append(*out, fnd("c23-unlisted-source", "C23 %s: row %s was returned but its only block %s is not in BlockStats", name, c, k))
+				*out = append(*out, fnd("c23-unlisted-source", "C23 %s: row %s was returned but its only block %s is not listed as processed in BlockStats (listed=%v skipped=%v)", name, c, k, seen[k], skippedKeys[k]))
 				break
 			}
 		}
